@@ -543,8 +543,16 @@ class MyPyAstVisitor:
         if type_is_inferred and isinstance(ret_type, sds_types.TupleType):
             return self._create_inferred_results(ret_type, result_docstrings, function_id)
 
-        # If we got a TupleType, we can iterate it for the results, but if we got a NamedType, we have just one result
-        return_results = ret_type.types if isinstance(ret_type, sds_types.TupleType) else [ret_type]
+        # If we got a TupleType, we can iterate it for the results, but if we got a NamedType, we have just one result. A
+        # tuple of variable length ("tuple[int, ...]") is one result, too
+        proper_ret_type = mp_types.get_proper_type(getattr(getattr(node, "type", None), "ret_type", None))
+        is_variadic_tuple = (
+            isinstance(proper_ret_type, mp_types.Instance) and proper_ret_type.type.fullname == "builtins.tuple"
+        )
+        if isinstance(ret_type, sds_types.TupleType) and not is_variadic_tuple:
+            return_results = ret_type.types
+        else:
+            return_results = [ret_type]
 
         # Create Result objects and try to find a matching docstring name
         all_results = []
@@ -1060,12 +1068,21 @@ class MyPyAstVisitor:
         unanalyzed_type: mp_types.Type | None = None,
     ) -> AbstractType:
 
+        # A type alias ("IntList = list[int]") stands for the type it abbreviates
+        if isinstance(mypy_type, mp_types.TypeAliasType):
+            mypy_type = mp_types.get_proper_type(mypy_type)
+
         # Special cases where we need the unanalyzed_type to get the type information we need
         if unanalyzed_type is not None and hasattr(unanalyzed_type, "name"):
             unanalyzed_type_name = unanalyzed_type.name
             if unanalyzed_type_name == "Final":
                 # Final type
-                types = [self.mypy_type_to_abstract_type(arg) for arg in getattr(unanalyzed_type, "args", [])]
+                final_args = getattr(unanalyzed_type, "args", [])
+                if len(final_args) == 1 and not isinstance(mypy_type, mp_types.AnyType):
+                    # The analysed type is the type between the brackets
+                    return sds_types.FinalType(type_=self.mypy_type_to_abstract_type(mypy_type, final_args[0]))
+
+                types = [self.mypy_type_to_abstract_type(arg) for arg in final_args]
                 if len(types) == 1:
                     return sds_types.FinalType(type_=types[0])
                 elif len(types) == 0:
@@ -1090,7 +1107,9 @@ class MyPyAstVisitor:
         if isinstance(mypy_type, mp_types.TupleType):
             return sds_types.TupleType(types=[self.mypy_type_to_abstract_type(item) for item in mypy_type.items])
         elif isinstance(mypy_type, mp_types.UnionType):
-            return sds_types.UnionType(types=[self.mypy_type_to_abstract_type(item) for item in mypy_type.items])
+            # (the members of an alias that abbreviates a union are members of this union)
+            items = mp_types.flatten_nested_unions(mypy_type.items)
+            return sds_types.UnionType(types=[self.mypy_type_to_abstract_type(item) for item in items])
 
         # Special Cases
         elif isinstance(mypy_type, mp_types.TypeVarType):
